@@ -1,7 +1,7 @@
 /-
   Model/Rules/Merge.lean — overlapping_fields_can_be_merged.rs, modelled in full: the ordered
   field map, the fragment-name list, the asymmetric `PairSet`, the per-selection-set
-  `visited_fragments` vector shared by all comparisons, the early `return`s, `field1.position`
+  `visited_fragments` vector shared by all comparisons, the early exits, `field1.position`
   used twice.  The recursion follows fragment names and is not always terminating (finding F16),
   so every call level consumes fuel; running out = `stuck`.
 -/
@@ -209,15 +209,13 @@ def fieldsAndFragment (s : Schema) (d : Document) :
       if c2.2.contains fragName then ([], st)
       else
         let r := conflictsBetween s d n me fm c2.1 st
-        -- the loop with its early `return`: `stop` = a name was already visited
-        let res := c2.2.foldl (fun (acc : MRes × Bool) fn2 =>
-          if acc.2 then acc
-          else if acc.1.2.visited.contains fn2 then (((acc.1.1), { acc.1.2 with guardHit := true }), true)
+        -- the loop over the nested spreads: a name already visited is skipped (`continue`)
+        c2.2.foldl (fun (acc : MRes) fn2 =>
+          if acc.2.visited.contains fn2 then (acc.1, { acc.2 with guardHit := true })
           else
-            let st' := { acc.1.2 with visited := acc.1.2.visited ++ [fn2] }
+            let st' := { acc.2 with visited := acc.2.visited ++ [fn2] }
             let x := fieldsAndFragment s d n fm fn2 me st'
-            ((acc.1.1 ++ x.1, x.2), false)) (r, false)
-        res.1
+            (acc.1 ++ x.1, x.2)) r
 
 /-- `collect_conflicts_between_fragments` -/
 def betweenFragments (s : Schema) (d : Document) :
